@@ -6,6 +6,7 @@ import (
 	"math"
 	"os"
 	"path/filepath"
+	"runtime/debug"
 	"sort"
 	"strings"
 
@@ -114,6 +115,14 @@ func (x *progRun) run(n int) string {
 		return x.dead
 	}
 	res := guard(func() string {
+		if os.Getenv("VERIF_DEBUG") != "" {
+			defer func() {
+				if r := recover(); r != nil {
+					fmt.Fprintf(os.Stderr, "panic in run: %v\n%s\n", r, debug.Stack())
+					panic(r)
+				}
+			}()
+		}
 		for n > 0 {
 			k := n
 			if k > 1<<17 {
@@ -351,7 +360,7 @@ func (x *progRun) runRom(spec string, frames, fine int, buttons bool) {
 func progGen(c *ctx) {
 	x := &progRun{c: c}
 	x.do("reset")
-	frames, fine, nSynth, synthFrames := 10, 200, 6, 4
+	frames, fine, nSynth, synthFrames := 20, 200, 6, 4
 	roms := progRoms
 	if c.thorough() {
 		frames, nSynth, synthFrames = 300, 40, 12
